@@ -265,6 +265,7 @@ func c12Check(c C12Case, rec *Recorder) *Disc {
 				continue
 			}
 			passed := roomyConfig(*s.Cfg)
+			handedOver := cfgJSON(passed)
 			var m *cors.Middleware
 			if s.Op == "reconfigure" && mw != nil {
 				if err := mw.m.Reconfigure(passed); err != nil {
@@ -280,6 +281,9 @@ func c12Check(c C12Case, rec *Recorder) *Disc {
 					rec.Class("rejected-config")
 					continue
 				}
+			}
+			if now := cfgJSON(passed); now != handedOver {
+				return discf("step %d (%s): the library modified the Config value it was given: %s before the call, %s after", i, s.Op, handedOver, now)
 			}
 			n := &c12MW{m: m, cfg: *s.Cfg, suite: c12Suite(*s.Cfg)}
 			if mw != nil && s.Op == "reconfigure" {
